@@ -261,7 +261,9 @@ impl RecGen {
             // window of parked rows, a turn counter), so that a worker stopped in the middle
             // of one of the first records (starve scheduler) sees the others get a whole
             // capacity ahead before the input ends
-            if rng.chance(1, 3) {
+            // (a third where rows are cheap, an eighth elsewhere: the other rungs find
+            // block-arithmetic slips that these do not, see DESIGN 7.1m)
+            if self.overflow_top_w >= 3 && rng.chance(1, 3) {
                 [1024usize, 4096, 16384, 65536][rng.weighted(&[2, 2, 5, self.overflow_top_w])] + rng.usize(1, 40)
             } else {
                 n
